@@ -267,6 +267,6 @@ Definition fo_parse (is_word_char : Z -> bool) (to_lower simple_fold : Z -> Z) (
            (cat_in : Z -> Z -> bool) (cat_name : list Z -> Z) (is_ecma_word_char : Z -> bool)
            (fuel : nat) (g : Z) (o : Z) (mco : bool) (p : list Z) : res presult :=
   gp_parse_with is_word_char to_lower simple_fold participates cat_in cat_name
-    (fo_reduce cat_in is_word_char is_ecma_word_char fuel g false 0)
+    (fo_reduce cat_in is_word_char is_ecma_word_char fuel g 0 false 0)
     (fo_final_passes cat_in is_word_char is_ecma_word_char fuel g 0 false)
     o mco p.
